@@ -1,4 +1,4 @@
 SPECIFICATION Spec
-CONSTANTS InitCap = 2  MaxCap = 2  Gap = 0  Ids = {1, 2}  MaxPub = 6  W = {1}  Tails = {1, 3}
+CONSTANTS InitCap = 2  MaxCap = 2  Gap = 0  Ids = {1, 2}  MaxPub = 6  W = {1}  Tails = {1, 3}  BBs = {FALSE}
 INVARIANTS RingCorrect NoBadDelivery ErroredOnlyIfLagged QuietComplete RecentBookmarksAccepted AcceptedBookmarkRetained
 CHECK_DEADLOCK FALSE
